@@ -1,0 +1,10 @@
+//go:build verif
+
+package kademlia
+
+// VerifCaches returns the node's peer and data caches so that the verification harness can read their
+// entries (Cache.VerifDump: CreatedAt and ExpiresAt are not observable through DHTNode's own methods).
+// It is only compiled with the verif build tag.
+func (n *DHTNode) VerifCaches() (peers, data *Cache[[]byte]) {
+	return &n.peers, &n.data
+}
